@@ -117,6 +117,8 @@ def run(rep, tier, seed, model_ok=True, effort=1):
         # bump through the CLI
         if isinstance(res, tuple) and r.random() < 0.6:
             fl = v2gen.gen_flags(r)
+            if r.random() < 0.15:
+                fl = dict(major=False, minor=False, patch=False, tag=None, tag_num=False, pin_increments=False, pin_date=True)   # --pin-date alone
             fl["tag_num"] = fl["tag_num"] and r.random() < 0.2
             fl["pin_increments"] = False
             nd = d + dt.timedelta(days=r.choice([0, 1, 31, 400, -5, 3000]))
@@ -130,6 +132,17 @@ def run(rep, tier, seed, model_ok=True, effort=1):
             new = impl.parse_new_version(out) if code == 0 else None
             pep = impl.parse_pep440_line(out) if code == 0 else None
             rep.count("test-exit=%s" % ("0" if code == 0 else "nonzero"))
+            # with --pin-date and no other flag only the build id moves: the expected text is known independently
+            only_pin = fl["pin_date"] and not any(fl[k] for k in ("major", "minor", "patch", "tag_num")) and fl["tag"] is None and setv is None
+            if only_pin and any(x in pat for x in ("{pycalver}", "{build", "{bid}", "{BID}", "{B")):
+                import lexid
+                try:
+                    want = impl.v1version.format_version(v._replace(bid=lexid.next_id(v.bid)), pat)
+                except Exception:
+                    want = None
+                if want is not None and want != s and (code != 0 or new != want):
+                    rep.violation("--pin-date bump of a legacy version gives %r (exit %s), expected only the build id to move: %r" % (new, code, want),
+                                  input=dict(args=args, new=new, want=want), **{"class": "v1-pin-date"})
             if code == 0 and new:
                 if not (version.parse_version(new) > version.parse_version(s)):
                     rep.violation("legacy bump is not strictly greater", input=dict(args=args, new=new), **{"class": "v1-not-greater"})
